@@ -2,6 +2,7 @@
 import os
 from fractions import Fraction
 import gens as G
+import h3midi_util as H
 import pyimpl as P
 from oracle_util import *  # noqa
 from protocol import from_real, KEY_IDX
@@ -52,13 +53,15 @@ CLAUSES = [
       "SCoda.C13b.key_count", "SCoda.C13b.saved_key_parses"]),
 ]
 RULE = ("MIDI files written with mido: resolutions from {1,7,24,48,96,100,480,960,997,32767}, 1-4 tracks, long delta "
-        "patterns (drift), note-on velocity 0 as note-off, all groupings, meta selections and target indices, all 30 key names; "
+        "patterns (drift), note-on velocity 0 as note-off, all groupings, meta selections and target indices, all 30 key names (each judged "
+        "against the harness's own table of the format's key names), files whose tracks all start with a time signature at tick 0; "
         "non-trivial = resolution != 24 or more than one track")
 ASSUMPTIONS = ["mido's writer/reader assumed faithful",
                "the code accumulates IEEE doubles; the model uses exact rationals with round-half-even; both may differ only at exact .5 ties, where the oracle accepts either neighbour",
                "model: SCoda.convert (Model/Midi.lean), tied by correspondence"]
 SCRATCH = None
 KEYNAMES = None
+KEY_BY_MEMBER = None
 
 
 def expected_tick(cum, ppq):
@@ -183,8 +186,9 @@ def o_load(inp):
             if ty == 3:
                 exp_sigs.append((3, (num, den), expected_tick(cum, ppq)))
             elif ty == 2:
-                from scoda.misc.music_theory import MusicMapping
-                exp_sigs.append((2, KEY_IDX[MusicMapping.KeyKeyMapping[key]], expected_tick(cum, ppq)))
+                # the key a name has to load as comes from the harness's own table of the 30 MIDI key names (name -> accidentals ->
+                # major key; a minor key loads as its relative major), NOT from MusicMapping.KeyKeyMapping (audit 3, O2)
+                exp_sigs.append((2, H.expected_key_index(key, KEY_BY_MEMBER), expected_tick(cum, ppq)))
     for gi in range(len(groups)):
         la = [from_real(m) for m in loaded[gi].abs._messages]
         for m in la:
@@ -204,6 +208,13 @@ def o_load(inp):
         for ty, default in ((TIMESIG, (4, 4)), (KEYSIG, None)):
             evs = sorted(((min(e[2]), e[1]) for e in exp_sigs if e[0] == ty), key=lambda x: x[0])
             if len({t for t, _ in evs}) != len(evs):
+                # several signatures of this kind on one tick (the normal case of real files: every track starts with a time signature
+                # at tick 0; audit 3, O10).  "All signatures of the considered tracks on the meta sequence": the value in force from such
+                # a tick on is one of those the file gives there (THE one when they agree), nothing changes where the file has no event
+                given = list(evs) + ([(0, (4, 4))] if ty == TIMESIG and not any(t == 0 for t, _ in evs) else [])
+                bad = H.in_force_violation(given, sig_in_force(tl, ty, None))
+                if bad:
+                    fails.append(("meta", f"signature timeline (several on one tick): {bad}; loaded {sig_in_force(tl, ty, None)}"))
                 continue
             # the loaded meta sequence is read with no default: it has to carry 4/4 at tick 0 itself
             # when the file says nothing there
@@ -242,8 +253,12 @@ def setup(ctx):
     ctx.kf_predicates["D17"] = kf_d17
     ctx.kf_predicates["D20"] = kf_d20
     SCRATCH = ctx.scratch
-    from scoda.misc.music_theory import MusicMapping
-    KEYNAMES = list(MusicMapping.KeyKeyMapping.keys()) + ["A#m", "Abm"]
+    global KEY_BY_MEMBER
+    KEYNAMES = sorted(H.MIDO_KEYS) + ["A#m", "Abm", "Am", "Em"]     # all 30 names of the format, from the harness's table
+    KEY_BY_MEMBER = H.key_index_by_member()
+    import mido.midifiles.meta as _meta
+    if hasattr(_meta, "_key_signature_encode"):     # the third-party codec accepts exactly these names
+        assert sorted(k for k in _meta._key_signature_encode if isinstance(k, str)) == sorted(H.MIDO_KEYS)
     ctx.oracle("load", o_load)
 
 
@@ -307,6 +322,13 @@ def generate(ctx):
     rng = ctx.rng
     ctx.check("load", D17_EXAMPLE)
     ctx.check("load", D20_EXAMPLE)
+    # every one of the 30 key names of the format, once on its own and once after another key (so that none is dropped as a repeat)
+    for name in sorted(H.MIDO_KEYS):
+        other = "C" if H.MIDO_KEYS[name][0] != 0 else "G"
+        ctx.count("key-name-sweep")
+        ctx.check("load", {"ppq": 24, "target": 0, "groups": [[0]], "meta": [0], "tracks": [[
+            (2, None, 0, None, None, None, None, None, None, other), (7, 0, 0, 60, 64, None, None, None, None, None),
+            (2, None, 24, None, None, None, None, None, None, name), (6, 0, 24, 60, 0, None, None, None, None, None)]]})
     for i in range(ctx.n(120, 2500)):
         ppq = rng.choice([1, 7, 24, 48, 96, 100, 480, 960, 997, 32767])
         nt = rng.randint(1, 4)
@@ -314,6 +336,16 @@ def generate(ctx):
         tracks = [gen_track(rng, ppq, rng.randint(0, 60 if long_ else 10), wf=rng.random() < 0.7) for _ in range(nt)]
         if any(wf_violations([(0, (6 if (e[0] == 7 and e[4] == 0) else e[0], e[1], None, e[3])) for e in t if e[0] in (6, 7)]) for t in tracks):
             ctx.count("ill-formed-track")
+        if rng.random() < 0.3:
+            # the normal case of real files: every track starts with a time signature (sometimes a key) at tick 0 — the same or its own
+            same = G.any_sig(rng) if rng.random() < 0.6 else None
+            for t_ in tracks:
+                n_, d_ = same or G.any_sig(rng)
+                head = [(3, None, 0, None, None, None, None, n_, d_, None)]
+                if rng.random() < 0.4:
+                    head.append((2, None, 0, None, None, None, None, None, None, rng.choice(KEYNAMES)))
+                t_[0:0] = head
+            ctx.count("every-track-starts-with-a-signature-at-0:" + ("same" if same else "own"))
         idx = list(range(nt))
         mode = rng.random()
         if mode < 0.4:
